@@ -268,3 +268,5 @@ ENSURES(new_size, verif_exc != 0 || ns >= __CPROVER_old(self->size) || self->siz
 ENSURES(shape, verif_exc != 0 || CNT_SHAPE(self))
 ENSURES(kept_elements, verif_exc != 0 || ghost_g >= self->size || CNT_VAL(self, ghost_g) == CNT_OLDVAL(self, ghost_g))
 ;
+
+#include "spec_arrays.h"
